@@ -68,7 +68,11 @@ pub struct PointCloud {
 impl PointCloud {
     pub(crate) fn vec_from_document(document: &Document) -> Result<Vec<Self>> {
         let mut pointclouds = Vec::new();
-        if let Some(data3d_node) = document.descendants().find(|n| n.has_tag_name("data3D")) {
+        if let Some(data3d_node) = document
+            .root_element()
+            .children()
+            .find(|n| n.has_tag_name("data3D"))
+        {
             for n in data3d_node.children() {
                 if n.has_tag_name("vectorChild") && n.attribute("type") == Some("Structure") {
                     let pointcloud = Self::from_node(&n)?;
